@@ -597,7 +597,7 @@ Definition monitor (i : input) (o : output) : bool :=
       | Panic => false
       end
   | OpCaRt id d =>
-      if negb ((id <=? U64_MAX) && bytes_ok d && (len d <=? MAXLEN)) then true else
+      if negb ((id <=? U64_MAX) && bytes_ok d && (2 * len d <=? MAXLEN)) then true else
       let v := le_enc 8 id ++ d in
       let inl := if (length d <=? 30)%nat then 1 else 0 in
       match o with
